@@ -8,6 +8,7 @@ Oracle: invariants F1-F6 of DESIGN.md section 3.3 against a window-less fresh tw
 """
 import copy
 import json
+import os
 
 import numpy as np
 import pandas as pd
@@ -30,7 +31,7 @@ ASSUMPTIONS = [
     "status 'inaccurate' makes no claim (as in C03)",
     "restart rebuilds the portfolio from its spec (JSON round trip of portfolios is C11's subject) and the solution from its JSON text",
 ]
-REQUIRED_PROBES = ["window_cuts_coarse_interval", "window_cuts_order", "scale_var_fixed", "boolean_fixed",
+REQUIRED_PROBES = ["split_desk", "window_cuts_coarse_interval", "window_cuts_order", "scale_var_fixed", "boolean_fixed",
                    "transport_var_fixed", "x_from_slp", "date_form_aware_grid", "none_grid_date_form", "multi_row_var_fixed"]
 SHRINK_KEYS = ["ticks"]
 
@@ -38,6 +39,11 @@ VALUE_TOL = 1e-6
 X_TOL = 1e-6
 
 # --------------------------------------------------------------------------- generation
+
+
+def _freq_multiple(f, m):
+    base = {"15min": (15, "min"), "h": (1, "h"), "4h": (4, "h"), "d": (1, "d")}.get(f)
+    return "%d%s" % (base[0] * m, base[1]) if base else None
 
 
 def gen_plan(rng, run_index, tier, opts):
@@ -150,8 +156,30 @@ def gen_plan(rng, run_index, tier, opts):
         elif xr < 0.38:
             tk["x_source"] = "off_bounds"
         ticks.append(tk)
-    return {"world": world, "grid": g, "portfolio": P, "curves": curves, "solver": solver, "ticks": ticks,
+    split = None
+    if rng.random() < float(os.environ.get("VERIF_C15_SPLIT_P", 0.14)) and T >= 6:   # (the variable is a development knob)
+        # the desk builds its problems with setup_split_optim_problem (documented to take the same window): interval sizes that
+        # give at least two intervals, also ones that do not divide the horizon and calendar-anchored ones (partial first interval)
+        step_ = gi.timepoints[1] - gi.timepoints[0]
+        mult = [m_ for m_ in (2, 3, 4, 6, 8, 12, 24) if m_ * 2 <= T + m_ - 1 and m_ < T]
+        cand = [_freq_multiple(f, m_) for m_ in mult]
+        cand = [c_ for c_ in cand if c_]
+        if f in ("h", "15min", "4h"):
+            cand += ["d"]
+        if f == "d":
+            cand += ["W", "2d"]
+        if cand:
+            split = {"interval_size": rng.choice(cand)}
+    if split:
+        for tk in ticks:
+            tk["grid_arg"] = "explicit"          # (the split set-up needs the grid as an argument)
+            if tk.get("x_source") == "slp":
+                tk.pop("x_source")
+    plan = {"world": world, "grid": g, "portfolio": P, "curves": curves, "solver": solver, "ticks": ticks,
             "cfg": {"mip": is_mip, "T": T}}
+    if split:
+        plan["split"] = split
+    return plan
 
 
 # --------------------------------------------------------------------------- reference feasibility
@@ -190,7 +218,34 @@ def _ordered(W, how, T=None):
     return lst
 
 
+def merge_split(sop):
+    """A SplitOptimProblem written as the one problem it stands for (intervals side by side, block-diagonal rows): what
+    F1-F7 are evaluated on when the desk builds its problems interval by interval."""
+    import scipy.sparse as sp
+    import eaopack as eao
+    ops = sop.ops
+    blocks = [o.A if o.A is not None else sp.csr_matrix((0, len(o.c))) for o in ops]
+    A = sp.block_diag(blocks, format="csr") if blocks else None
+    b = np.hstack([np.asarray(o.b, float) if o.b is not None else np.zeros(0) for o in ops])
+    cT = "".join((o.cType or "") for o in ops)
+    mnr = None
+    if all(o.map_nodal_restr is not None for o in ops):
+        mnr = [r for o in ops for r in o.map_nodal_restr]
+    return eao.optimization.OptimProblem(c=np.hstack([o.c for o in ops]), l=np.hstack([o.l for o in ops]), u=np.hstack([o.u for o in ops]),
+                                         A=A, b=b, cType=cT, mapping=sop.mapping, map_nodal_restr=mnr)
+
+
 class Desk:
+    def setup(self, P, pr, g, **kw):
+        """(problem F1-F7 are evaluated on, object the desk optimises)"""
+        sp_ = self.plan.get("split")
+        if sp_:
+            sop = P.setup_split_optim_problem(pr, g, interval_size=sp_["interval_size"], **kw)
+            self.probes["split_desk"] += 1
+            return merge_split(sop), sop
+        op = P.setup_optim_problem(pr, g, **kw)
+        return op, op
+
     def __init__(self, plan):
         self.plan = plan
         self.w = plan["world"]
@@ -238,12 +293,12 @@ class Desk:
         g = self.B.grid(self.plan["grid"])
         pr = self.B.prices(self.plan["curves"][0])
         try:
-            op = P.setup_optim_problem(pr, g)
+            op, sop = self.setup(P, pr, g)
         except Exception as e:
             self.events.append(("init", "setup-raise:%s@%s" % canon.exc_sig(e)))
             return False
         self.stats["setups"] += 1
-        res = self.solve(op)
+        res = self.solve(sop)
         if isinstance(res, str):
             self.events.append(("init", "solve:" + res))
             return False
@@ -327,7 +382,7 @@ class Desk:
         tw = specs.Builder(self.w)
         try:
             skw = {"skip_nodes": list(tk["skip_nodes"])} if tk.get("skip_nodes") else {}
-            op_free = tw.portfolio(plan["portfolio"]).setup_optim_problem(tw.prices(plan["curves"][tk["curve"]]), tw.grid(plan["grid"]), **skw)
+            op_free, _ = self.setup(tw.portfolio(plan["portfolio"]), tw.prices(plan["curves"][tk["curve"]]), tw.grid(plan["grid"]), **skw)
         except Exception as e:
             self.stats["twin_failed"] += 1
             self.events.append((k, "twin-raise:%s@%s" % canon.exc_sig(e)))
@@ -386,7 +441,7 @@ class Desk:
             if tk["form"] == "date":
                 self.probes["none_grid_date_form"] += 1
         try:
-            op = P.setup_optim_problem(pr, garg, fix_time_window=fx, **skw)
+            op, sop = self.setup(P, pr, garg, fix_time_window=fx, **skw)
         except Exception as e:
             et, fr = canon.exc_sig(e)
             self.events.append((k, "setup-raise:%s@%s" % (et, fr)))
@@ -455,7 +510,7 @@ class Desk:
         self.reach(m, fixed, W, tk, x_kind)
         # --- solve
         sol_fault = tk.get("solver_fault")
-        res = self.solve(op, sol_fault)
+        res = self.solve(sop, sol_fault)
         clean = sol_fault is None
         same_curve = (self.x_is_opt_for == tk["curve"]) and x_kind in ("solution", "longer") and not tk.get("skip_nodes")
         x_feasible_by_construction = x_kind in ("solution", "longer", "slp")
@@ -576,7 +631,7 @@ class Desk:
         if (multi & fixed).any():
             feats.add("multirow")
         cls_sig = ",".join(sorted({name2cls.get(a, "?") for a in set(assets)}))
-        state = "%s|%s|%s|%s|%s|%s|%s" % (tk["form"] + ("/empty" if tk.get("empty") else "/gaps" if tk.get("steps") else "/mid" if tk.get("lo") else "") + ("/skip" if tk.get("skip_nodes") else "") + ("/" + tk["date_tz"] if tk.get("date_tz") else ""), tk["grid_arg"], tk["feed"], x_kind, tk.get("solver_fault", "-"),
+        state = "%s|%s|%s|%s|%s|%s|%s" % (tk["form"] + ("/empty" if tk.get("empty") else "/gaps" if tk.get("steps") else "/mid" if tk.get("lo") else "") + ("/skip" if tk.get("skip_nodes") else "") + ("/split" if self.plan.get("split") else "") + ("/" + tk["date_tz"] if tk.get("date_tz") else ""), tk["grid_arg"], tk["feed"], x_kind, tk.get("solver_fault", "-"),
                                          "restart" if tk.get("restart") else "-", ",".join(sorted(feats)) or "plain")
         trivial = (not feats) and tk["feed"] == "new" and x_kind == "solution" and not tk.get("solver_fault") and not tk.get("restart")
         self.pairs.add(("T|" if trivial else "N|") + state + "|" + cls_sig)
@@ -674,7 +729,8 @@ def aggregate(results):
     agg["distinct_nontrivial"] = len(nt)
     agg["distinct_pairs_total"] = len(pairs)
     agg["rule"] = ("one evaluation = one simulated desk run (portfolio + grid + 2-6 ticks; per tick a set-up with the window on the "
-                   "long-lived objects, a window-less set-up on a fresh twin, one solve). distinct_nontrivial counts distinct tick "
+                   "long-lived objects, a window-less set-up on a fresh twin, one solve; in about one run of seven every problem is built "
+                   "through setup_split_optim_problem and judged as the block-diagonal problem it stands for). distinct_nontrivial counts distinct tick "
                    "states (window form, grid argument, feed event, source of the fixed vector, solver fault, restart, structural "
                    "features hit by the window: multi-row variable / cut order / cut coarse interval / scale / boolean / transport, "
                    "asset-class set); a tick with a fresh curve, no fault, no restart and only single-row variables is trivial")
